@@ -543,37 +543,26 @@ def run(tier, seed):
     for t in traces:
         for e in t["ev"]:
             ops[e["op"] + ":" + e["res"]] = ops.get(e["op"] + ":" + e["res"], 0) + 1
-    # a history stops at its first rejected step; when that step only fails invariants (the call itself conforms)
-    # the finding is recorded, waived for that step, and the history is validated again to its end
-    acc, pending, rounds = 0, traces, 0
-    while pending:
-        nxt = []
-        for tr in pending:
-            v = verdicts[tr["id"]]
-            root = tr["id"].split("~")[0]
-            if v[0] == "ACCEPT":
-                acc += 1
-                continue
-            line, act, why = v[1], v[2], v[3]
-            ev = tr["ev"][line - 1]
-            key = classify(tr, line, act, why)
+    # a call that conforms to its spec action but breaks invariants is recorded by the trace module and the history
+    # goes on; a call that does not conform (guard / result / projection) ends the history
+    acc = 0
+    for tr in traces:
+        v = verdicts[tr["id"]]
+        if v[0] == "ACCEPT":
+            acc += 1
+            continue
+        line, act, why = v[1], v[2], v[3]
+        fails = v[4] if len(v) > 4 else []
+        items = [(f[0], f[1], ["inv", f[2]]) for f in fails]
+        if why and why[0] != "inv":
+            items.append((line, act, why))
+        for (ln, op, wy) in items:
+            ev = tr["ev"][ln - 1]
+            key = classify(tr, ln, op, wy)
             brief = {k: ev[k] for k in ("op", "c", "s", "n", "a", "dst", "res", "val", "reach", "got")}
             ck.violation(key, "history %s rejected at call %d (%s): %s ; %s" % (
-                root, line, act, json.dumps(why)[:400], json.dumps(brief)),
-                replay=dict(kind="trace", **meta[root]))
-            if why and why[0] == "inv" and rounds < 8:
-                t2 = json.loads(json.dumps(tr))
-                t2["ev"][line - 1]["waive"] = sorted(set(t2["ev"][line - 1]["waive"]) | set(why[1]))
-                t2["id"] = "%s~%d" % (root, rounds + 1)
-                nxt.append(t2)
-        rounds += 1
-        if not nxt:
-            break
-        more, st2 = tlc.validate_traces("Trace_LlcpAddr.tla", "Trace_LlcpAddr.cfg", PID, nxt,
-                                        shards=min(16, len(nxt)), timeout=900 if quick else 3000)
-        verdicts.update(more)
-        st["states"] += st2["states"]
-        pending = nxt
+                tr["id"], ln, op, json.dumps(wy)[:400], json.dumps(brief)),
+                replay=dict(kind="trace", **meta[tr["id"]]))
     ck.cover(traces_validated_against_impl=acc, trace_events=nev, trace_states=st["states"],
              calls_by_result=dict(sorted(ops.items())),
              binding_selftest="getsockname off by one and dropped bind both rejected")
